@@ -49,10 +49,15 @@
                          a super-table holds no lines; the source positions of the printed headers and lines
                          increase (`dotted_adjacent` and more: print order = source order); every header and every
                          line's key path is spelled in the source as it prints (`prefix_consistent`).
-   NOT COVERED: dotted keys INSIDE inline tables (`a = { b.c = 1 }`; dot_doc is false for them).  The
-   text-level half is proved for them too (C03_tiling); what is missing is Display of an inline table whose
-   pairs were flattened (InlineTable::append_values), with the same adjacency / spelling conditions inside the
-   braces.  An example is checked by computation below.
+     C03_exact           EVERY class, one decidable side condition: laid_out' s (doc_root d) = vals_ok && laid_out.
+                         vals_ok: every inline table inside the values either has no table implied by dotted keys
+                         among its items, or its pairs — in the order Display prints them (InlineTable::append_values
+                         flattens the tables that dotted keys made) — follow each other in the source as written: the
+                         first starts after the opening brace, each next one after the comma behind the previous
+                         pair's value, key positions increase, and each key path is spelled in the source as it
+                         prints (Proofs/PrintBackIValue.v `vok`: adjacency and prefix-consistency inside the braces,
+                         hereditarily through arrays and nested inline tables).
+   Nothing is left uncovered: C03_exact has no restriction on the shape of the document.
 
    Statements only; proofs in Proofs/Tiling*.v and Proofs/PrintBack*.v. *)
 From TV Require Import Base.Prelude Base.Utf8 Base.Winnow Gen.Consts Spec.Abnf Spec.Lex Spec.Defs Spec.Syntax Spec.Norm.
@@ -60,7 +65,7 @@ From TV Require Import Model.Tree Model.Parse Model.Document Model.Encode.
 From TV Require Import Proofs.LexEquivBase Proofs.TilingDefs Proofs.TilingNormDoc
                        Proofs.PrintBackBase Proofs.PrintBackEnc Proofs.PrintBackKey Proofs.PrintBackValue Proofs.PrintBackDoc
                        Proofs.PrintBackTop Proofs.PrintBackDespan Proofs.PrintBackEnts Proofs.PrintBackFinal Proofs.PrintBackSecTop
-                       Proofs.PrintBackDVals Proofs.PrintBackDFinal Proofs.PrintBackDTop.
+                       Proofs.PrintBackDVals Proofs.PrintBackIValue Proofs.PrintBackDFinal Proofs.PrintBackDTop.
 From TV Require Proofs.SpansDespanTotal.
 Require Import String Ascii.
 
@@ -169,6 +174,21 @@ Proof.
 Qed.
 Print Assumptions C03_exact_dotted_total.
 
+(* every class: dotted keys inside inline tables included *)
+Theorem C03_exact : forall s d,
+  parse_document s = POk d -> laid_out' s (doc_root d) = true -> render s d = normalize s.
+Proof. exact render_normalize_all. Qed.
+Print Assumptions C03_exact.
+
+Theorem C03_exact_total : forall s d,
+  utf8_valid_b s = true -> parse_document s = POk d -> laid_out' s (doc_root d) = true -> print_doc s d = Some (normalize s).
+Proof.
+  intros s d Hu Hp Hl. destruct (SpansDespanTotal.despan_total s d Hu Hp) as (r & t & Er & Et).
+  assert (E : print_doc s d = Some (display_document r t)) by (unfold print_doc; rewrite Er, Et; reflexivity).
+  rewrite E. f_equal. rewrite (print_doc_render s d _ E). apply render_normalize_all; assumption.
+Qed.
+Print Assumptions C03_exact_total.
+
 (* ---- examples ------------------------------------------------------------------------------------------- *)
 Definition txt (s : string) : bytes := List.map byte_of_ascii (list_ascii_of_string s).
 Definition lf : string := String (ascii_of_nat 10) EmptyString.
@@ -230,10 +250,26 @@ Definition dotted_ok (s : bytes) : bool :=
 Example C03_ex_dotted : dotted_ok ex_dotted = true /\ prints_normal ex_dotted = true /\ sections_ok ex_dotted = false.
 Proof. split; [|split]; vm_compute; reflexivity. Qed.
 
-(* dotted keys inside an inline table: by computation only *)
-Example C03_ex_inline_dotted :
-  let s := txt ("q = { m.n = 1, m.o = 2 }" ++ lf) in prints_normal s = true /\ dotted_ok s = false.
-Proof. split; vm_compute; reflexivity. Qed.
+(* dotted keys inside inline tables, nested through an array with a comment, without blanks and with
+   blanks around the dots: the condition of C03_exact holds *)
+Definition all_ok (s : bytes) : bool :=
+  match parse_document s with POk d => laid_out' s (doc_root d) | _ => false end.
+Definition ex_inline_dotted : bytes :=
+  txt ("q = { m.n = 1, m.o = 2 }" ++ lf ++ "x = {a.b=1,a.c={ d.e = [ 1, # c" ++ lf ++ " { f . g = 1 , f . h = 2 } ], d.h = 2 } , z = 3}" ++ lf
+       ++ "[t]" ++ lf ++ "u.v = { w.x = 1 }" ++ lf).
+Example C03_ex_inline_dotted : all_ok ex_inline_dotted = true /\ prints_normal ex_inline_dotted = true /\ dotted_ok ex_inline_dotted = false.
+Proof. split; [|split]; vm_compute; reflexivity. Qed.
+
+(* inside the braces the same things go wrong: pairs of one prefix that are not adjacent, a respelled prefix *)
+Example C03_ex_inline_fails :
+  all_ok (txt ("x = { a.b = 1, c = 2, a.d = 3 }" ++ lf)) = false /\ prints_normal (txt ("x = { a.b = 1, c = 2, a.d = 3 }" ++ lf)) = false
+  /\ all_ok (txt ("x = { a.b = 1, " ++ dq ++ "a" ++ dq ++ ".c = 2 }" ++ lf)) = false
+  /\ prints_normal (txt ("x = { a.b = 1, " ++ dq ++ "a" ++ dq ++ ".c = 2 }" ++ lf)) = false.
+Proof. repeat split; vm_compute; reflexivity. Qed.
+
+(* the earlier examples satisfy the one condition too *)
+Example C03_ex_all : all_ok ex_nasty = true /\ all_ok ex_sections = true /\ all_ok ex_dotted = true.
+Proof. repeat split; vm_compute; reflexivity. Qed.
 
 (* ---- why the side condition of the target statement is needed ---------------------------------------------- *)
 (* finding F5: keys sharing a dotted prefix that is spelled differently print with the first
